@@ -101,6 +101,11 @@ def process_results(check, obs, known):
         for ob in pending:
             cur = ob.cur
             st = cur.status
+            if st == "unsat" and getattr(ob, "refined", False):
+                # the abstracted obligation has a counterexample that does not reproduce, and no realisable one exists in the refined sub-case
+                check.inconclusive.append("%s: solver model %s of the abstracted obligation does not reproduce natively and the realisability "
+                                          "refinement found no counterexample; not a verdict" % (ob.name, getattr(ob, "first_model", "?")))
+                continue
             if st == "unsat":
                 if ob.kind == "stretch":
                     counters["stretch_discharged"] += 1
@@ -157,6 +162,20 @@ def process_results(check, obs, known):
                         check.notes.append("stretch obligation %s has a reproduced counterexample %s" % (ob.name, fmt_model(ob, model)))
                     path = write_replay(check, ob, model, calls, "reproduced")
                     check.violations.append((ob.name, path, fmt_model(ob, model)))
+                    continue
+                # an obligation that abstracts part of the code (e.g. a recursive call replaced by a free value under its contract) may offer
+                # a realisability constraint: re-ask for a counterexample in which the abstracted value is the one the real code computes
+                if getattr(ob, "realisable", None) is not None and not getattr(ob, "refined", False) and rounds < 5:
+                    ob.refined = True
+
+                    def fn3(K, *vs, _b=cur.fn, _r=ob.realisable):
+                        r = _b(K, *vs)
+                        return (T.and_(r[0], _r(K, *vs)), r[1])
+                    ob3 = F.Ob(ob.name, ob.vars, fn3, ob.kind, ob.expect, getattr(ob, "realisable_routes", None) or ob.routes, ob.key, ob.kernels,
+                               getattr(ob, "realisable_timeout", None) or ob.timeout, ob.note)
+                    ob.cur = ob3
+                    ob.first_model = fmt_model(ob, model)
+                    again.append(ob)
                     continue
                 path = write_replay(check, ob, model, calls, "not reproduced pre=%r post=%r" % (pv, qv))
                 why = ("the counterexample is for the width-reduced re-interpretation of the IR and does not lift to full width"
